@@ -27,10 +27,15 @@ type fragReader struct {
 	failAfter   int
 	ownErr      error
 	delivered   int
+	errWithData bool // the failure is reported by the Read call that delivers the last bytes before it, together with them
+	errOnce     bool // the failure is reported once; later Read calls go on delivering data (a timeout, not a dead source)
 }
 
 func (r *fragReader) Read(p []byte) (int, error) {
 	if r.failAfter >= 0 && r.delivered >= r.failAfter {
+		if r.errOnce {
+			r.failAfter = -1
+		}
 		return 0, r.ownErr
 	}
 	if len(r.data) == 0 {
@@ -53,6 +58,16 @@ func (r *fragReader) Read(p []byte) (int, error) {
 	copy(p, r.data[:n])
 	r.data = r.data[n:]
 	r.delivered += n
+	if r.errWithData && r.failAfter >= 0 && r.delivered == r.failAfter && n > 0 {
+		if r.errOnce {
+			r.failAfter = -1
+		} else {
+			r.failAfter = 0 // sticky from now on
+			r.delivered = 0
+			r.data = nil
+		}
+		return n, r.ownErr
+	}
 	if len(r.data) == 0 && r.eofWithData && n > 0 {
 		return n, io.EOF
 	}
